@@ -37,9 +37,12 @@ def run_case(cs):
     tr['exc'] = ''
     try:
         if cs['kind'] == 'w':
-            w = getinterpweights(np.array(cs['xs'], 'd'),
-                                 np.array(cs['nxs'], 'd'),
-                                 extrapolate=cs['ex'])
+            # coordinates are cs['xs'] / sc stored with type xdt (integer
+            # level indices, whole hPa ...), targets cs['nxs'] / sc
+            sc = cs.get('sc', 1)
+            w = getinterpweights((np.array(cs['xs'], 'd') / sc).astype(
+                cs.get('xdt', 'd')), np.array(cs['nxs'], 'd') / sc,
+                extrapolate=cs['ex'])
             tr['got'] = [[fr(x) for x in row] for row in np.asarray(w)]
         elif cs['kind'] == 'c':
             c = sigma2coeff(np.array(cs['F'], 'd') / 8.,
@@ -51,13 +54,14 @@ def run_case(cs):
             f.createDimension('t', 2)
             f.createDimension('z', n)
             f.createDimension('x', 2)
-            z = f.createVariable('z', 'd', ('z',))
-            z[:] = cs['xs']
+            sc = cs.get('sc', 1)
+            z = f.createVariable('z', cs.get('xdt', 'd'), ('z',))
+            z[:] = (np.array(cs['xs'], 'd') / sc).astype(cs.get('xdt', 'd'))
             v = f.createVariable('D', 'd', ('t', 'z', 'x'))
             lane = np.array(cs['d'], 'd')
             v[...] = 0
             v[cs['lane'][0], :, cs['lane'][1]] = lane
-            g = f.interpDimension('z', np.array(cs['nxs'], 'd'),
+            g = f.interpDimension('z', np.array(cs['nxs'], 'd') / sc,
                                   extrapolate=cs['ex'])
             out = g.variables['D'][cs['lane'][0], :, cs['lane'][1]]
             tr['got'] = [fr(x) for x in np.asarray(out)]
@@ -225,7 +229,21 @@ def run(tier):
         d['nxs'] = [x + off for x in c['nxs']]
         far.append(d)
     out.cov['far_from_origin_cases'] = len(far)
-    todo = cases + apps + far
+    # coordinates stored as integers (or single precision) with targets
+    # between them: the grids in half units, sources on even values
+    typed = []
+    for c in rnd.sample(pool_w, min(len(pool_w), 400 if tier == 'quick'
+                                    else 4000)) + \
+            rnd.sample(pool_a, min(len(pool_a), 150 if tier == 'quick'
+                                   else 1500)):
+        d = dict(c)
+        d['xs'] = [2 * x for x in c['xs']]
+        d['nxs'] = [2 * x + rnd.choice([0, 1, 1]) for x in c['nxs']]
+        d['sc'] = 2
+        d['xdt'] = rnd.choice(['i', 'l', 'f', 'd'])
+        typed.append(d)
+    out.cov['typed_coordinate_cases'] = len(typed)
+    todo = cases + apps + far + typed
     for i, c in enumerate(todo):
         c['tid'] = i + 1
     res = run_cases(run_case, todo, timeout=60, per_child=400, chunksize=40)
